@@ -24,6 +24,8 @@ rsync -a --exclude '*_test.go' "$REPO/src" "$SCRATCH/repo/" || die "rsync src"
 GH="$(go env GOMODCACHE)/github.com/f1bonacc1/go-health/v2@v2.1.4"
 [ -d "$GH" ] || die "go-health not in module cache"
 rsync -a --chmod=u+w --exclude '*_test.go' --exclude examples --exclude fakes "$GH/" "$SCRATCH/go-health/" || die "rsync go-health"
+# (debugging aid: VERIF_GH_SED is a sed script applied to the copy of go-health's health.go)
+if [ -n "${VERIF_GH_SED:-}" ]; then sed -i "$VERIF_GH_SED" "$SCRATCH/go-health/health.go" || die "VERIF_GH_SED"; fi
 # 2. instrument
 PATH="/opt/veriftools/go1.26.8/bin:$PATH" "$VERIF/bin/simrewrite" -repo "$SCRATCH/repo" -health "$SCRATCH/go-health" -sites "$SCRATCH/sites.json" || die "simrewrite failed"
 # 2a. export shim: lets the harness run the binary's headless entry point (signal handler + Run)
